@@ -276,23 +276,23 @@ rule!(array -> Value, {
     map(delimited(char('['), cut(body),ws(char(']'))), Into::into)
 });
 
+// "(" opens a bracketed expression or a tuple; the content is parsed once and the commas decide:
+// `()` `(a,)` `(a,b)` `(a,b,)` are tuples, `(a)` is a.
 rule!(tuple -> Value, {
     let body = map_opt(
-        pair(many0(terminated(
-            op_0,
-            ws(char(','))
-        )),opt(op_0)),
-        |(mut ary,last)|{
-            if ary.is_empty() && last.is_some() {
-                return None
+        pair(
+            separated_list0(ws(char(',')), op_0),
+            opt(ws(char(',')))
+        ),
+        |(mut ary,comma)|{
+            match (ary.len(), comma) {
+                (0, Some(_)) => None,
+                (1, None) => ary.pop(),
+                _ => Some(Value::Tuple(Arc::new(ary))),
             }
-            if let Some(v) = last {
-                ary.push(v);
-            }
-            Some(ary)
         }
     );
-    map(map(delimited(char('('), body,ws(char(')'))), Arc::new), Value::Tuple)
+    delimited(char('('), body, ws(char(')')))
 });
 
 rule!(value -> Value, {
@@ -309,11 +309,7 @@ rule!(value -> Value, {
 });
 
 rule!(op_value -> Value, {
-    alt((
-        delimited(char('('), ws(op_0), ws(char(')'))),
-        delimited(char('('), ws(value), ws(char(')'))),
-        value,
-    ))
+    value
 });
 
 rule!(op_index -> (Span<'a>,Vec<Value>), {
@@ -415,17 +411,10 @@ op_rule!(op_1, op_1_5, alt((tag("||"), tag_no_case("or"))));
 
 rule!(op_if(i) -> Value, {
     map(
-        alt((
-            nom_tuple((
-                preceded(tag("if"),op_0),
-                preceded(ws(tag("then")),op_0),
-                preceded(ws(tag("else")),op_0),
-            )) ,
-            nom_tuple((
-                terminated(op_1,ws(tag("?"))),
-                terminated(op_0,ws(tag(":"))),
-                op_0
-            )) ,
+        nom_tuple((
+            preceded(tag("if"),op_0),
+            preceded(ws(tag("then")),op_0),
+            preceded(ws(tag("else")),op_0),
         )),
         |(cond, yes, no)| {
             If::make_call(cond, yes, no).into()
@@ -455,12 +444,37 @@ rule!(op_let -> Value, {
     )
 });
 
+// tried in this order: if-then-else, `cond ? yes : no`, let, a plain expression.
+// `cond` and the plain expression are the same text, which is parsed once.
 rule!(op_0 -> Value, {
-    alt((
-        op_if,
-        op_let,
-        op_1
-    ))
+    |i: Span<'a>| {
+        match op_if(i) {
+            Err(nom::Err::Error(_)) => {}
+            r => return r,
+        }
+        let plain = op_1(i);
+        match &plain {
+            Ok((rest, cond)) => {
+                let mut choices = nom_tuple((
+                    preceded(ws(tag("?")),op_0),
+                    preceded(ws(tag(":")),op_0),
+                ));
+                match choices.parse(*rest) {
+                    Ok((rest, (yes, no))) => {
+                        return Ok((rest, If::make_call(cond.clone(), yes, no).into()))
+                    }
+                    Err(nom::Err::Error(_)) => {}
+                    Err(e) => return Err(e),
+                }
+            }
+            Err(nom::Err::Error(_)) => {}
+            Err(_) => return plain,
+        }
+        match op_let(i) {
+            Err(nom::Err::Error(_)) => plain,
+            r => r,
+        }
+    }
 });
 
 rule!(root(i)->Value, {
